@@ -12,6 +12,15 @@
 // answer: ok <state> | validation <path>=[msg|msg];<path>=[..] [<state>] | err <class>
 //   messages with ' ' -> '_'; paths sorted (std::map order); the state is printed when the load ran to its end
 //   (cap == 0 or fewer failing fields than the cap).
+//
+// val.phone[z|16|32|w] <min> <max> <plus 0|1> <loaded 0|1> <string>      PhoneNumber(min, max, plus)(string, loaded), default messages
+// val.email[z|16|32|w] <loaded 0|1> <string>                              Email()(string, loaded)
+//   the REAL functors called directly on an arbitrary string. suffix: none = std::string (string = hex bytes, `-` empty),
+//   z = const char* (the view ends at the first NUL), 16 / 32 / w = std::u16string / std::u32string / std::wstring
+//   (string = dot separated hex code units).
+//   answer: pass | fail:<message class>
+//     PhoneNumber: dashes nested closing chars plus unclosed digits_eq_<n> digits_range_<a>_<b>;  Email: invalid
+//     (the class is recognised from the default message text; any other text -> fail:unknown_message)
 #include "harness.h"
 #include <algorithm>
 #include <cstring>
@@ -265,5 +274,85 @@ Register v1("val.load", [](const Tokens& t) -> std::string {
 	if (t[1] == "map") return run<Map>(cap, doc);
 	throw BadOp("class");
 });
+
+
+// ---- the text validators, called directly ----
+std::string phoneClass(const std::string& m) {
+	static const std::pair<const char*, const char*> fixed[] = {
+		{ "Invalid phone number (dashes should be used to separate numbers)", "dashes" },
+		{ "Invalid phone number (contains nested parentheses)", "nested" },
+		{ "Invalid phone number (invalid closing parenthesis)", "closing" },
+		{ "Invalid phone number (contains invalid characters)", "chars" },
+		{ "Invalid phone number (missing initial `+`)", "plus" },
+		{ "Invalid phone number (missing closing parenthesis)", "unclosed" },
+	};
+	for (auto& f : fixed) if (m == f.first) return f.second;
+	auto number = [](const std::string& x) { return !x.empty() && std::all_of(x.begin(), x.end(), [](char c) { return c >= '0' && c <= '9'; }); };
+	const std::string p1 = "Invalid phone number (must contain ", s1 = " digits)";
+	if (m.size() > p1.size() + s1.size() && m.compare(0, p1.size(), p1) == 0 && m.compare(m.size() - s1.size(), s1.size(), s1) == 0) {
+		const std::string n = m.substr(p1.size(), m.size() - p1.size() - s1.size());
+		if (number(n)) return "digits_eq_" + n;
+	}
+	const std::string p2 = "Invalid phone number (the number of digits must be from ", mid = " to ", s2 = ")";
+	if (m.size() > p2.size() + s2.size() && m.compare(0, p2.size(), p2) == 0 && m.back() == ')') {
+		const std::string body = m.substr(p2.size(), m.size() - p2.size() - s2.size());
+		const auto k = body.find(mid);
+		if (k != std::string::npos && number(body.substr(0, k)) && number(body.substr(k + mid.size())))
+			return "digits_range_" + body.substr(0, k) + "_" + body.substr(k + mid.size());
+	}
+	return "unknown_message";
+}
+
+std::string verdictOf(const std::optional<std::string>& r, bool phone) {
+	if (!r) return "pass";
+	if (phone) return "fail:" + phoneClass(*r);
+	return *r == "Invalid email address" ? "fail:invalid" : "fail:unknown_message";
+}
+
+bool flag(const std::string& s) { if (s == "0") return false; if (s == "1") return true; throw BadOp("flag"); }
+
+size_t sizeArg(const std::string& s) {
+	if (s.empty() || s.size() > 20 || !std::all_of(s.begin(), s.end(), [](char c) { return c >= '0' && c <= '9'; })) throw BadOp("size");
+	return static_cast<size_t>(std::stoull(s));
+}
+
+enum class StrKind { Str, CStr, U16, U32, W };
+
+template <class TValidator>
+std::string callOn(const TValidator& v, StrKind kind, const std::string& text, bool loaded, bool phone) {
+	switch (kind) {
+	case StrKind::Str: return verdictOf(v(parseBytes(text), loaded), phone);
+	case StrKind::CStr: { const std::string s = parseBytes(text); return verdictOf(v(s.c_str(), loaded), phone); }
+	case StrKind::U16: return verdictOf(v(toStr<std::u16string>(parseUnits(text)), loaded), phone);
+	case StrKind::U32: return verdictOf(v(toStr<std::u32string>(parseUnits(text)), loaded), phone);
+	case StrKind::W: return verdictOf(v(toStr<std::wstring>(parseUnits(text)), loaded), phone);
+	}
+	throw BadOp("kind");
+}
+
+Handler phoneOp(StrKind kind) {
+	return [kind](const Tokens& t) -> std::string {
+		if (t.size() != 6) throw BadOp("arity");
+		return callOn(PhoneNumber(sizeArg(t[1]), sizeArg(t[2]), flag(t[3])), kind, t[5], flag(t[4]), true);
+	};
+}
+
+Handler emailOp(StrKind kind) {
+	return [kind](const Tokens& t) -> std::string {
+		if (t.size() != 3) throw BadOp("arity");
+		return callOn(Email(), kind, t[2], flag(t[1]), false);
+	};
+}
+
+Register p1("val.phone", phoneOp(StrKind::Str));
+Register p2("val.phonez", phoneOp(StrKind::CStr));
+Register p3("val.phone16", phoneOp(StrKind::U16));
+Register p4("val.phone32", phoneOp(StrKind::U32));
+Register p5("val.phonew", phoneOp(StrKind::W));
+Register e1("val.email", emailOp(StrKind::Str));
+Register e2("val.emailz", emailOp(StrKind::CStr));
+Register e3("val.email16", emailOp(StrKind::U16));
+Register e4("val.email32", emailOp(StrKind::U32));
+Register e5("val.emailw", emailOp(StrKind::W));
 
 } // namespace
